@@ -275,6 +275,97 @@ func c12Pei(c *core.Ctx, k *core.Case) {
 	}
 }
 
+// oracle "ident-series": I=[seed, n] — consecutive identities that differ from
+// their predecessor in ONE digit / nibble (what a network function sees: the same
+// GUAMI, PLMN or home network over and over with small variations). A conversion
+// that remembers part of its previous input (a partial-key cache, a reused
+// builder) gives the previous answer for the changed part; the per-identity
+// oracles, which draw every identity afresh, cannot see that.
+func c12Series(c *core.Ctx, k *core.Case) {
+	r := prng.New(uint64(k.I[0]))
+	mcc, mnc := digits(r, 3), digits(r, 2+r.Intn(2))
+	amf, tmsi := r.Uint32()&0xffffff, r.Uint32()
+	rid, msin := digits(r, 1+r.Intn(4)), digits(r, 5+r.Intn(6))
+	mutDigit := func(s string) string {
+		b := []byte(s)
+		i := r.Intn(len(b))
+		b[i] = '0' + (b[i]-'0'+1+byte(r.Intn(9)))%10
+		return string(b)
+	}
+	var trail []string
+	for i := 0; i < int(k.I[1]); i++ {
+		what := "first"
+		if i > 0 {
+			switch r.Intn(7) {
+			case 0:
+				mcc, what = mutDigit(mcc), "one MCC digit"
+			case 1:
+				mnc, what = mutDigit(mnc), "one MNC digit"
+			case 2:
+				amf, what = amf^(uint32(1+r.Intn(15))<<(4*uint(r.Intn(6)))), "one AMF id nibble"
+			case 3:
+				tmsi, what = tmsi^(uint32(1+r.Intn(15))<<(4*uint(r.Intn(8)))), "one TMSI nibble"
+			case 4:
+				if len(mnc) == 2 {
+					mnc += string('0' + byte(r.Intn(10)))
+				} else {
+					mnc = mnc[:2]
+				}
+				what = "MNC width"
+			case 5:
+				rid, what = mutDigit(rid), "one routing indicator digit"
+			case 6:
+				msin, what = mutDigit(msin), "one MSIN digit"
+			}
+		}
+		trail = append(trail, what)
+		if len(trail) > 6 {
+			trail = trail[1:]
+		}
+		c.Eval(4)
+		c.Cover("series_step", what)
+		wire := refconv.GutiWire(mcc, mnc, amf, tmsi)
+		text := refconv.GutiText(mcc, mnc, amf, tmsi)
+		guami, gt, err := nasConvert.GutiToStringWithError(cloneB(wire))
+		if err != nil || gt != text || guami.PlmnId == nil || guami.PlmnId.Mcc != mcc || guami.PlmnId.Mnc != mnc || guami.AmfId != fmt.Sprintf("%06x", amf) {
+			plmn := "<nil>"
+			if guami.PlmnId != nil {
+				plmn = guami.PlmnId.Mcc + "/" + guami.PlmnId.Mnc
+			}
+			c.Fail(k, "series:guti-text", fmt.Sprintf("step %d (changed: %v): GutiToStringWithError(%x) = %q, guami %s %s, err %v; want %q, %s/%s %06x", i, trail, wire, gt, plmn, guami.AmfId, err, text, mcc, mnc, amf))
+			return
+		}
+		if g, err := nasConvert.GutiToNasWithError(text); err != nil || !bytes.Equal(g.Octet[:], wire) {
+			c.Fail(k, "series:guti-wire", fmt.Sprintf("step %d (changed: %v): GutiToNasWithError(%q) = %x, %v; want %x", i, trail, text, g.Octet, err, wire))
+			return
+		}
+		mi := nasType.NewMobileIdentity5GS(0)
+		mi.SetLen(uint16(len(wire)))
+		mi.SetMobileIdentity5GSContents(wire)
+		if s := mi.Get5GGUTI(); s != text || mi.GetPlmnID() != mcc+mnc || mi.GetAmfID() != fmt.Sprintf("%06x", amf) || mi.Get5GTMSI() != fmt.Sprintf("%08x", tmsi) {
+			c.Fail(k, "series:mobileidentity-guti", fmt.Sprintf("step %d (changed: %v): getters on %x: %q plmn %q amf %q tmsi %q; want %q", i, trail, wire, s, mi.GetPlmnID(), mi.GetAmfID(), mi.Get5GTMSI(), text))
+			return
+		}
+		pw := refconv.PlmnWire(mcc, mnc)
+		if got := nasConvert.PlmnIDToNas(models.PlmnId{Mcc: mcc, Mnc: mnc}); !bytes.Equal(got, pw[:]) || nasConvert.PlmnIDToString(pw[:]) != mcc+mnc {
+			c.Fail(k, "series:plmn", fmt.Sprintf("step %d (changed: %v): PlmnIDToNas(%s,%s) = %x, PlmnIDToString(%x) = %q", i, trail, mcc, mnc, got, pw, nasConvert.PlmnIDToString(pw[:])))
+			return
+		}
+		sw := refconv.SuciWire(mcc, mnc, rid, 0, 0, msin, nil)
+		st := refconv.SuciText(mcc, mnc, rid, 0, 0, msin, nil)
+		if s, plmn, err := nasConvert.SuciToStringWithError(cloneB(sw)); err != nil || s != st || plmn != mcc+mnc {
+			c.Fail(k, "series:suci-text", fmt.Sprintf("step %d (changed: %v): SuciToStringWithError(%x) = %q,%q,%v; want %q", i, trail, sw, s, plmn, err, st))
+			return
+		}
+		region, set, ptr := refconv.AmfIDSplit(amf)
+		if got := nasConvert.AmfIdToModels(region, set, ptr); got != fmt.Sprintf("%06x", amf) {
+			c.Fail(k, "series:amfid", fmt.Sprintf("step %d (changed: %v): AmfIdToModels(%#x,%#x,%#x) = %q", i, trail, region, set, ptr, got))
+			return
+		}
+	}
+	c.Count("series", 1)
+}
+
 // oracle "invalid": S=[function, text] — invalid text must be reported as an error
 func c12Invalid(c *core.Ctx, k *core.Case) {
 	fn, txt := k.S[0], k.S[1]
@@ -299,7 +390,7 @@ func init() {
 			"reference renderers/builders written from TS 24.501 9.11.3.4, TS 24.008 10.5.1.3 and TS 23.003 (AMF id = region 8 || set 10 || pointer 6)",
 			"hex text is lower case as the library emits it; upper-case input must convert to the same octets",
 		},
-		Oracles: map[string]func(*core.Ctx, *core.Case){"plmn": c12Plmn, "plmn-one": c12PlmnOne, "amf": c12Amf, "guti": c12Guti, "suci": c12Suci, "nai": c12Nai, "pei": c12Pei, "invalid": c12Invalid},
+		Oracles: map[string]func(*core.Ctx, *core.Case){"plmn": c12Plmn, "plmn-one": c12PlmnOne, "amf": c12Amf, "guti": c12Guti, "suci": c12Suci, "nai": c12Nai, "pei": c12Pei, "invalid": c12Invalid, "ident-series": c12Series},
 		Exhaustive: func(tier string) (bool, string) {
 			return true, "all PLMNs and all 2^24 AMF identifiers; TMSI, SUCI and PEI spaces sampled"
 		},
@@ -310,6 +401,9 @@ func init() {
 			}
 			if cnt["amf_ids"] != 1<<24 {
 				f = append(f, fmt.Sprintf("%d of 2^24 AMF ids", cnt["amf_ids"]))
+			}
+			if cnt["series"] == 0 {
+				f = append(f, "no near-duplicate identity series completed")
 			}
 			for _, kd := range []string{"guti", "suci", "nai", "pei", "invalid"} {
 				if cov["kind"][kd] == 0 {
@@ -333,6 +427,16 @@ func init() {
 			us = append(us, core.Unit{Name: fmt.Sprintf("amf-%06x", a), Weight: 60, Run: func(c *core.Ctx) {
 				c.Do(&core.Case{Oracle: "amf", Target: "nasConvert.AmfIdToModels", I: []int64{int64(a), int64(a + 1<<18)}})
 				c.NonTrivial(core.HashU64(1, uint64(a)))
+			}})
+		}
+		for u := 0; u < 16; u++ {
+			u := u
+			us = append(us, core.Unit{Name: fmt.Sprintf("series-%02d", u), Weight: 20, Run: func(c *core.Ctx) {
+				for i := 0; i < c.Pick(40, 1500); i++ {
+					k := &core.Case{Oracle: "ident-series", Target: "nasConvert", I: []int64{int64(c.R.Uint64() >> 1), int64(c.R.Range(2, 40))}}
+					c.Do(k)
+					c.NonTrivial(k.Hash())
+				}
 			}})
 		}
 		for u := 0; u < 16; u++ {
